@@ -16,8 +16,7 @@ structure Footprint where
 deriving Repr
 
 def exempt (comm : Bytes) : Bool :=
-  let c := toLower comm
-  c == b "auth" || c == b "hello" || c == b "ping" || c == b "echo"
+  toLower comm == b "auth" || toLower comm == b "hello" || toLower comm == b "ping" || toLower comm == b "echo"
 
 def catAllowed (u : User) (c : Bytes) : Bool :=
   (u.inclCats.contains star || u.inclCats.contains c) && !(u.exclCats.contains star || u.exclCats.contains c)
